@@ -4,7 +4,7 @@
    nothing but positions.  Gaps after a token that ends by look-ahead, literal spellings, != versus <>, redundant
    parentheses and trailing semicolons are decided by the correspondence run (C14_partial). *)
 From Coq Require Import ZArith List Bool.
-From Ckl Require Import Prelude.PyPrelude Prelude.LexPrelude Gen.LexGen Model.LexRun Proofs.LexProofs Proofs.LexLayout Proofs.LexGaps.
+From Ckl Require Import Prelude.PyPrelude Prelude.LexPrelude Gen.LexGen Model.LexRun Proofs.LexProofs Proofs.LexLayout Proofs.LexGaps Proofs.LexReach.
 Import ListNotations.
 Open Scope Z_scope.
 
@@ -61,3 +61,10 @@ Print Assumptions C14_any_gap_is_one_blank.
 Example C14_gap_premises : let s := mk_lstate 1 [97; 98] [] 1 2 1 1 true in
   (rank s <= 1)%nat /\ scan_state (l_state s) = true /\ tidy s.
 Proof. cbn. repeat split; [apply le_n|intros [H|H]; discriminate H]. Qed.
+
+(* ... and these premises are not special: in EVERY state the scanner can reach from its initial state, unless it is inside a
+   string, a pattern or a comment, the gap theorem applies (with slack 2) *)
+Theorem C14_gap_premises_reachable : forall s, reach s -> literal_state (l_state s) = false ->
+  ((l_state s =? 0) = true \/ scan_state (l_state s) = true) /\ tidy s /\ (rank s <= 2)%nat.
+Proof. exact reach_gap_premises. Qed.
+Print Assumptions C14_gap_premises_reachable.
